@@ -1,21 +1,21 @@
 CHECKS = {
  "C01": {
-  "text": "Generated-input search: thousands of rank-planted weighted LS problems (banded covariance blocks, regularisation subsets, defect 0..3) are solved by all four algorithms through both Adj and the AdjBase classes and compared with an independent numpy SVD reference; failures shrink to a replay JSON. Exploration, not proof: bounded sizes (n<=9).",
-  "note": "Trusted: numpy/LAPACK as reference, my rank-planting generator (re-verified by numpy per case), sanitizer build flags. Sizes n<=9, m<=19, defect<=3.",
+  "text": "Generated-input search: thousands of rank-planted weighted LS problems (banded covariance blocks, regularisation subsets, defect 0..3) are solved by all four algorithms through both Adj and the AdjBase classes and compared with an independent numpy SVD reference; failures shrink to a replay JSON. A second generator gives graph-structured sparse problems with 10-40 unknowns (exact defects from floating components, blocks up to dimension 10); every generator also draws large absolute terms with small residuals and the same problem in other units (2^k). Exploration, not proof: bounded sizes (n<=40).",
+  "note": "Trusted: numpy/LAPACK as reference, my rank-planting generator (re-verified by numpy per case), sanitizer build flags. Sizes n<=9 (dense) / n<=40, m<=~130 (graph-structured), defect<=3. The sum of squares is judged against the rounding of the residuals, not relative to b'Pb. Known finding (exact tag): gso on matrices upscaled by >= 2^14.",
   "technique": "property-based testing (Hypothesis) with differential oracle against numpy reference, under ASan/UBSan",
  },
  "C02": {
-  "text": "Generated-input search: the four algorithms are run on the same rank-planted problems through GNU_gama::Adj and compared pairwise (defect, x, r, v'Pv, every q_xx and q_bb) with a conditioning-proportional tolerance; provably non-resolving regularisation subsets must be refused by all four. Exploration with bounded sizes.",
-  "note": "Trusted: numpy condition numbers for tolerances and for classifying subsets as resolving / non-resolving; n<=9.",
+  "text": "Generated-input search: the four algorithms are run on the same rank-planted problems through GNU_gama::Adj and compared pairwise (defect, x, r, v'Pv, every q_xx and q_bb) with a conditioning-proportional tolerance; provably non-resolving regularisation subsets must be refused by all four; also on graph-structured problems with up to 40 unknowns. Exploration with bounded sizes.",
+  "note": "Trusted: numpy condition numbers for tolerances and for classifying subsets as resolving / non-resolving; n<=9 (dense), n<=40 (graph-structured).",
   "technique": "property-based differential testing between the four solvers (Hypothesis), sanitized",
  },
  "C03": {
   "text": "Generated-input search: all q_xx(i,j), q_bb(i,j) and (cholesky, gso, svd) q_bx(i,j) index pairs of every algorithm are checked against algebraic identities (symmetry, PSD, NQN=N, QNQ=Q, projector, trace=rank) and a numpy reference for the chosen regularisation.",
-  "note": "Trusted: numpy reference; tolerance 1e-8*cond^2; n<=9, m<=19.",
+  "note": "Trusted: numpy reference; tolerance 1e-8*cond^2; n<=9, m<=19 and graph-structured problems with n<=32 (all index pairs).",
   "technique": "property-based testing (Hypothesis) with algebraic-invariant and reference oracles",
  },
  "C04": {
-  "text": "Model-based history generation: sequences of up to 30 API calls against one solver object; every answer is compared with a fresh object asked only that question and with the numpy reference. The sequence shrinks as one value; sanitizer aborts are violations.",
+  "text": "Model-based history generation: sequences of up to 30 API calls against one solver object (one history in three on an object that has adjusted another problem before, graph-structured problems up to 22 unknowns in a second part); every answer is compared with a fresh object asked only that question and with the numpy reference. The sequence shrinks as one value; sanitizer aborts are violations.",
   "note": "Trusted: driver gdrv_adj (pure function of its command stream), numpy to admit resolving min_x subsets; subsets with fewer indexes than the defect are admitted as certainly insufficient (the answer is an exception, the same for a fresh object).",
   "technique": "stateful / model-based property testing (Hypothesis-generated call histories vs fresh-object oracle)",
  },
@@ -58,12 +58,12 @@ CHECKS = {
  },
  "C10": {
   "text": "Generated-input search with four relations: diagonal cov-mat vs per-observation stdev attributes; (A,b,C) vs numpy-whitened formulation through Adj for all algorithms and bands; banded clusters with inserted observations to unusable points vs the reduced input with the explicit sub-matrix; malformed matrices (indefinite, zero/negative variance, wrong dim, wrong element count, band>=dim) must be refused by every algorithm with the same located diagnostic; the exclusion relation also compares the statistics per observation.",
-  "note": "Trusted: numpy Cholesky for whitening, my GKF writer; ghost observations are constructed so that the target point is unusable (undeclared, or declared without determinable coordinates).",
+  "note": "Trusted: numpy Cholesky for whitening, my GKF writer; ghost observations are constructed so that the target point is unusable (undeclared, or declared without determinable coordinates); in <coordinates> / <vectors> clusters whole units (1-3 rows) of undeclared points drop out.",
   "technique": "metamorphic / differential property-based testing (Hypothesis) on the real binary and the Adj API",
  },
  "C11": {
   "text": "Bounded exhaustive enumeration plus coverage-guided fuzzing under ASan/UBSan with the semantic oracle inside the targets (well-formed XML output, located non-empty diagnostics, return from main): all element forests up to 3/4 elements over the tag alphabet, every prefix and every two-chunk split of every archived input, all archived inputs x option combinations through the in-process main(), libFuzzer campaigns on gama-local's main(), on the gama-g3 / adj-input-data parser with the g3 pipeline behind it and on the XML/HTML adjustment-result readers, and grammar-derived valid documents that must be accepted.",
-  "note": "Trusted: sanitizer runtime, expat as well-formedness judge. Leaks and pointer-overflow/nonnull-attribute UB classes are out of scope (DESIGN 5). libFuzzer campaigns are stochastic; saved units are the reproducible objects and are replayed at the start of every run. Numeric-literal enumeration is part of C18.",
+  "note": "Trusted: sanitizer runtime, expat as well-formedness judge. Leaks and pointer-overflow/nonnull-attribute UB classes are out of scope (DESIGN 5). libFuzzer campaigns are stochastic; saved units are the reproducible objects and are replayed at the start of every run. Numeric-literal enumeration is part of C18. Two Hypothesis parts on generated valid documents: lexical (equivalent spellings must be accepted with the same results; equivalence self-checked by an infoset comparison) and malformed (15 kinds of semantic damage, oracle of DESIGN 4.4); results files with integers beyond int must be refused by the tools.",
   "technique": "coverage-guided fuzzing (libFuzzer) + bounded exhaustive enumeration with in-target semantic oracle",
   "level": "fault_enumeration",
   "engine": "libFuzzer",
@@ -75,7 +75,7 @@ CHECKS = {
  },
  "C16": {
   "text": "Generated sparsity patterns (rank-planted problems, explicit shapes incl. empty rows, single column, dense, banded, disconnected, zero columns; block layouts with bands) through SparseMatrix build/replicate/transpose, graph connectivity, RCM ordering, Envelope set / LDL' / triangular solves / sparse inverse, BlockDiagonal Cholesky and Homogenization, each compared with its dense numpy/scipy definition (exact zeros on dependent pivots, defect = n - rank).",
-  "note": "Trusted: numpy/scipy dense references, driver gdrv_sp. Sizes up to 12x10.",
+  "note": "Trusted: numpy/scipy dense references, driver gdrv_sp. Sizes up to 12x10 for explicit shapes, up to ~130x40 for graph-structured patterns; matrices also in other units (2^k).",
   "technique": "property-based testing (Hypothesis) against dense reference implementations",
  },
  "C13": {
@@ -95,12 +95,12 @@ CHECKS = {
  },
  "C20": {
   "text": "Generated-input search at two levels. Library: rank-planted singular systems with resolving and provably non-resolving regularisation subsets through the four AdjBase solvers; after the expected bad-regularisation exception every lindep(i) is read and checked with numpy (exactly defect many, deleting them leaves full column rank). Network: (planted) determined networks with planted indeterminable parts (one-distance point, one-direction point, detached distance pair, detached levelling pair) through the real binary with all four algorithms: exactly the planted points are removed and reported, the rest equals the network without them, outputs hold no nan/inf; (free) free networks whose constrained coordinates are reduced until numpy says they cannot fix the datum: no algorithm may print an adjustment of the whole network, outcomes (refused / removed coordinate groups / results) must agree between algorithms.",
-  "note": "Trusted: numpy SVD rank with the gap rule of C01; my network Jacobian for the datum analysis. Known finding: for ill-posed free networks the algorithms remove different points (excluded by tag, well-posed disagreement is still reported).",
+  "note": "Trusted: numpy SVD rank with the gap rule of C01; my network Jacobian for the datum analysis. Library level also on graph-structured problems with up to 40 unknowns. Known finding: for ill-posed free networks the algorithms remove different points (excluded by tag, well-posed disagreement is still reported).",
   "technique": "property-based differential testing (Hypothesis) of the four solvers against a numpy rank oracle and of the real binary on networks with planted rank deficiencies",
  },
  "C12": {
   "text": "Generated-input search: noisy networks with identifiers / descriptions / extern values containing XML specials, non-ASCII and long strings, generated --cov-band, angular unit, language and encoding; one run of the real binary writes XML, HTML, text and Octave; checks: well-formed XML with exact identifiers, gama's own XML reader equal to my reader field by field, HTML reader to HTML precision, text (table of adjusted coordinates block by block, constrained marks) and Octave (coordinates, v'Pv, status counts, Indexes / Constrained matrices) carrying the same adjustment, compare-xyz and gama-local-deformation on identical and translated epochs.",
-  "note": "Trusted: Python expat + my reader as reference, small purpose-built readers of the text/Octave layouts. Two known findings about the HTML reader (entity-split identifiers, non-English labels) are excluded by tag.",
+  "note": "Trusted: Python expat + my reader as reference, small purpose-built readers of the text/Octave layouts. An integer field beyond int must be refused by the reader. Two known findings about the HTML reader (entity-split identifiers, non-English labels) are excluded by tag.",
   "technique": "property-based round-trip / differential testing (Hypothesis) across gama's writers, readers and companion tools",
  },
 }
